@@ -537,8 +537,12 @@ impl<'a> Runner<'a> {
     fn mon_immut(&mut self, full: bool) {
         for c in 0..self.clients.len() {
             let chain = self.clients[c].chain.clone();
+            // a third of the ledger after every operation; for long chains a bounded sample (the full
+            // ledger is still re-read every 10 operations, after every reopen and at the end)
+            let pct = if chain.len() > 60 { (34 * 60 / chain.len() as u32).max(2) } else { 34 };
+            let full = full && (chain.len() <= 200 || self.cur % 50 == 49 || self.cur + 1 == self.hist.ops.len());
             for (i, a) in chain.iter().enumerate() {
-                if !full && !self.rng.pct(34) {
+                if !full && !self.rng.pct(pct) {
                     continue;
                 }
                 let r = self.exec(c, &Req::GetChild { parent: a.parent });
